@@ -2,6 +2,7 @@ package props
 
 import (
 	"fmt"
+	"os"
 	"sort"
 	"strings"
 
@@ -29,8 +30,10 @@ func init() {
 	kit.Register(&kit.Spec{
 		ID: "C23",
 		Rule: "A: reflect-filler instances of dpos/state.CheckPoint, cr/state.Checkpoint, wallet.CoinsCheckPoint (every field populated; maps/slices 0..3 entries; sensitivity instances with <=1 entry per map so that bytes are deterministic) and tx-pool checkpoints of a live node holding 1..12 valid transactions. " +
-			"distinct = distinct serialised bytes; non-trivial = decoded and had populated leaves",
-		Shards: func(tier string) int { return 8 },
+			"distinct = distinct serialised bytes; non-trivial = decoded and had populated leaves. " +
+			"B (shards 8..): per shard one seeded 1460-1485 block history (2200+, crossing the third save height, on half of the thorough-tier shards) on a NeedSave node in the compressed dposv2-era / dpos-era: proposals in every status, v1/v2 votes, stake changes, producer registrations/cancellations, impeachment, reward claims and pending real-withdraws placed before and across the checkpoint save heights 720/1440, a non-empty mempool throughout; " +
+			"restore heights = save heights and +-1, +-5 around them plus seeded random ones, each as: feed the recorded blocks to a fresh node up to h, close (or die by SIGKILL), process exit, node.Start on the same directory in a new process, feed h+1..H. case = (history seed, restore height, exit mode); non-trivial = at least one cut was compared after the restart",
+		Shards: func(tier string) int { return c23AShards + c23BShards(tier) },
 		Run:    runC23,
 		TimeoutS: func(tier string) int {
 			if tier == "thorough" {
@@ -38,20 +41,49 @@ func init() {
 			}
 			return 900
 		},
-		Require: []string{"dpos_roundtrips", "cr_roundtrips", "wallet_roundtrips", "txpool_roundtrips", "txpool_txs_roundtripped", "sensitivity_probes", "leaf_keys_carried"},
+		Require: []string{"dpos_roundtrips", "cr_roundtrips", "wallet_roundtrips", "txpool_roundtrips", "txpool_txs_roundtripped", "sensitivity_probes", "leaf_keys_carried",
+			// workload B
+			"b_histories", "b_determinism_control_ok", "b_feed_control_ok", "b_restore_points", "b_restores_from_dpos_file", "b_restores_by_full_replay", "b_killed_processes",
+			"b_cuts_compared_at_restart", "b_cuts_compared_after_restart", "b_blocks_fed_after_restart", "b_pool_txs_restored_from_checkpoint",
+			"b_control_pending_votes_withdraw_at_save_height", "b_control_pending_cr_withdraw_at_save_height", "b_control_pending_v2_reward_withdraw_at_save_height", "b_control_nonempty_pool_at_save_height"},
 		Assumptions: []string{
 			"platform-int fields (DutyIndex) hold values in [0,2^31) — they are written as uint32",
 			"back pointers to the live Arbiters/Committee/TxPool objects, locks and callbacks are not checkpoint content",
 			"the tx-pool checkpoint is restored by re-validating its transactions against the chain (by design); it is therefore compared on a node whose chain still accepts them",
+			"B: the tx-pool file that is 'default' at a restart was written one block earlier (pool of cut h-2); transactions that entered the pool later were never checkpointed and are not demanded back; node-generated real-withdraw transactions are re-created by the node and only counted",
+			"B: StateKeyFrame.DposV2EffectedProducers is compared by key set (the node never reads its values), StateKeyFrame.NeedRevertToDPOSTX (set by the network layer) and the checkpoint objects' own Height (save-schedule bookkeeping) are not compared; rollback histories are not compared (a restarted node starts with empty histories by design)",
+			"B: the SIGKILL variant closes the block database first (its write-back cache is C17's subject) and waits for the asynchronous checkpoint writer to finish, so it differs from the clean variant only in never calling Manager.Close — which main.go never calls either",
 		},
 		Post: postC23,
 	})
 }
 
+// Shards 0..c23AShards-1 run workload A (unchanged case lists), the remaining
+// c23BShards shards run workload B (restart twin, c23_restart.go).
+const c23AShards = 8
+
+func c23BShards(tier string) int {
+	if tier == "thorough" {
+		return 8
+	}
+	return 4
+}
+
 func runC23(c *kit.Ctx) {
 	node.InitGlobals(c.WorkDir)
-	c23RoundTrips(c)
-	// workload B (restart twin) hooks in here.
+	only := os.Getenv("C23_ONLY") // development aid: "A" or "B"
+	if c.Shard < c23AShards {
+		if only != "B" {
+			c23RoundTrips(c)
+		}
+		return
+	}
+	if v := os.Getenv("C23B_ONLY_SHARD"); v != "" && v != fmt.Sprint(c.Shard-c23AShards) { // development aid
+		return
+	}
+	if only != "A" {
+		c23Restart(c, c.Shard-c23AShards, c.Shards-c23AShards)
+	}
 }
 
 // fields that are deliberately not persisted; value = why a restarted node
@@ -80,7 +112,7 @@ func c23RoundTrips(c *kit.Ctx) {
 		{"wallet.CoinsCheckPoint", "wallet_roundtrips", func() common.Serializable { return wallet.NewCoinCheckPoint() }},
 	}
 	total := c.N(200, 5000)
-	per := (total + c.Shards - 1) / c.Shards
+	per := (total + c23AShards - 1) / c23AShards
 	sensN := c.N(3, 12)
 	small := cfg.Clone()
 	small.MaxMap, small.MaxSlice, small.MinEntries = 1, 1, 1 // exactly one entry everywhere: deterministic bytes, every field reached
